@@ -5,6 +5,10 @@ import sys
 import time
 import z3
 
+# z3 5.1's Diophantine-equation sub-solver (lp.dio) ran for > 15 min inside single queries (bignum gcd in
+# dioph_eq::rewrite_eqs, not counted by rlimit, not interruptible) - on mutated trees and, with one more assertion in
+# a harness, on the unchanged tree. It is switched off; VERIF_Z3_GLOBAL can override ("lp.dio=true").
+z3.set_param("lp.dio", False)
 for _kv in os.environ.get("VERIF_Z3_GLOBAL", "").split(","):
     if "=" in _kv:
         _k, _v = _kv.split("=", 1)
